@@ -200,7 +200,18 @@ def double_run(ctx, planname, crash=None, phase=None, sig="SIGKILL", label=""):
         r2 = case.result(h2)
         ev = enga.parse_body(case.body_log())
         starts_expected = {int(k): v for k, v in PLANS[planname].get("expect_starts", {}).items()}
-        for x, msg in enga.exactly_once(ev, [x for x in xs if starts_expected.get(x, 1) == 1]):
+
+        def rerun_after_failure(x):
+            """A job whose body ended in failure before the restarted scheduler reached it is legitimately run again."""
+            seq = [(e[0], e[3]) for e in ev if e[1] == x]
+            if len(seq) < 4 or len(seq) % 2:
+                return False
+            return all(seq[i][0] == "start" and seq[i + 1][0] == "end" for i in range(0, len(seq), 2)) and all(seq[i + 1][1] is False for i in range(0, len(seq) - 2, 2))
+
+        reran = {x for x in xs if rerun_after_failure(x)}
+        if reran:
+            ctx.count("failed_before_restart_and_run_again")
+        for x, msg in enga.exactly_once(ev, [x for x in xs if starts_expected.get(x, 1) == 1 and x not in reran]):
             ctx.violation("body-not-exactly-once", f"after {sig} at {where}: job {x}: {msg} (log: {case.body_log()})", w)
         for x in xs:
             if starts_expected.get(x, 1) == 0 and any(e[0] == "start" and e[1] == x for e in ev):
@@ -223,6 +234,8 @@ def double_run(ctx, planname, crash=None, phase=None, sig="SIGKILL", label=""):
                 per[l.split()[1]] = per.get(l.split()[1], 0) + 1
         for script, n in per.items():
             if n != 1:
+                if reran:
+                    continue  # the first process had ended in failure: there was nothing left to adopt
                 if str(Path(script).parent) in adoptable:
                     ctx.violation("job-relaunched-instead-of-adopted", f"after {sig} at {where}: job script {Path(script).parent.name[:12]} was started {n} times although its live process was recorded in the pid file", w)
                 else:
